@@ -182,6 +182,9 @@ class Interp:
         returns the returned bits (or None)"""
         env = {}
         for p, a in zip(fn.params, args):
+            if isinstance(a, dict):
+                env[p['id']] = ['ref', ('obj', a), None]      # an object handed in by reference (another bit array)
+                continue
             w = width_of(p['ty']) or W
             env[p['id']] = ['val', trunc(a, w), w]
         try:
